@@ -31,6 +31,7 @@ func init() {
 			{"C17/response-sent", "Tunnel.Write hands the packet to the transport before it returns, so the refusal is on the wire before the tunnel is closed", func(c *Ctx) { tunnelWriteSync(c, "C17/response-sent") }},
 			{"C17/response-fields", "handshakeResponse puts each parameter in its own field: status, major then minor version byte, server version 0, capability word", c17ResponseFields},
 			{"C17/request-layout", "handshakeRequest reads u8,u8,u16,u16 little-endian into major, minor, version, extAuth", c17RequestLayout},
+			{"C17/config-tags", "the configuration fields this property depends on are read from the documented keys: koanf tag = lower-cased field name", func(c *Ctx) { configTags(c, "C17/config-tags", map[string][]string{"Configuration": {"Caps"}, "RDGCapsConfig": {"SmartCardAuth", "TokenAuth"}}) }},
 		},
 	})
 }
